@@ -37,10 +37,10 @@ func init() {
 
 		// ---- the translated functions (xlate.go): the model regenerated from the source ----
 		xlateEmit(x, dir+"/tls_clienthello.go", []xlSpec{
-			{"", "clientHelloBufferSize", "XBufSize", nil},
+			{"", "clientHelloBufferSize", "XBufSize", nil, []string{"p0:Bytes:[]"}, "(Int × (Option String))"},
 			// fuel of the two loops: the extension loop consumes >= 4 bytes of `data` per round, the name loop
 			// >= 3 bytes of `d`; that len+1 rounds suffice is a theorem (no "fuel" panic), not an assumption
-			{"clientHelloMsg", "unmarshal", "XUnmarshal", []string{"s.data.length + 1", "s.d.length + 1"}},
+			{"clientHelloMsg", "unmarshal", "XUnmarshal", []string{"auto", "auto"}, []string{"p0:Bytes:[]", "m_serverName:Bytes:[]"}, "Bool"},
 		})
 
 		// ---- clientHelloBufferSize ----
